@@ -9,7 +9,7 @@ full = '--full' in sys.argv
 
 
 def order(name):
-    wave = {'seed2': 2, 'seed3': 3, 'seed4': 4, 'seed5': 5, 'seed6': 6, 'seed7': 7}.get(name.split('_')[0], 1)
+    wave = {'seed2': 2, 'seed3': 3, 'seed4': 4, 'seed5': 5, 'seed6': 6, 'seed7': 7, 'seed8': 8}.get(name.split('_')[0], 1)
     return (name.split('_')[-1], wave)
 
 
